@@ -38,6 +38,18 @@ func main() {
 	case "flat":
 		n, _ := strconv.Atoi(os.Args[2])
 		fmt.Println(hx.FlatStream(n))
+	case "stress":
+		// xh stress <seed> <goroutines> <iterations>
+		seed, _ := strconv.ParseUint(os.Args[2], 10, 64)
+		gs, _ := strconv.Atoi(os.Args[3])
+		it, _ := strconv.Atoi(os.Args[4])
+		out := hx.Stress(seed, gs, it)
+		fmt.Println(out)
+		if len(out) < 2 || out[:2] != "ok" {
+			os.Exit(1)
+		}
+	case "climprobe":
+		fmt.Println(hx.CliRoundTrip(os.Args[2], os.Args[3]))
 	case "probe":
 		// xh probe <xml> <xpath>: evaluate on a document read with ReadXml, print the canonical result
 		if len(os.Args) != 4 {
